@@ -4,6 +4,7 @@ pub mod derive;
 pub mod evalorder;
 pub mod generics;
 pub mod illtyped;
+pub mod isolation;
 pub mod lattice;
 pub mod methods;
 pub mod names;
@@ -13,6 +14,7 @@ pub mod patterns;
 pub mod query;
 pub mod schedules;
 pub mod scoping;
+pub mod sepcomp;
 pub mod text;
 
 use crate::drive::Family;
@@ -40,6 +42,8 @@ pub fn all() -> Vec<Box<dyn Family>> {
         Box::new(names::NamesFamily),
         Box::new(names::Encoders),
         Box::new(illtyped::IllTyped),
+        Box::new(sepcomp::SepComp),
+        Box::new(isolation::Isolation),
     ]
 }
 
